@@ -30,6 +30,13 @@ C09Fails(T, r) ==
         \o (IF HasCert(T) /\ r.alg = "ffd" /\ 9 * m > 11 * lb + 6 THEN <<"C09.bound_ffd_11/9_OPT+6/9">> ELSE <<>>)
         \o (IF HasCert(T) /\ r.alg = "bfd" /\ 9 * m > 11 * lb + 36 THEN <<"C09.bound_bfd_11/9_OPT+4">> ELSE <<>>)
 
+\* C04 beyond the subset-DP oracle: with a certified perfect packing OPT = total / C exactly, so bin completion must not use more bins than that
+C04Fails(T, r) ==
+   IF r.alg # "bc" \/ ~HasCert(T) THEN <<>>
+   ELSE IF r.out # "ret" THEN <<"C04." \o r.out>>
+   ELSE IF ~IdsValid(T.vals, r) THEN <<>>
+   ELSE IF Len(r.lists) > Len(T.cert) THEN <<"C04.more_bins_than_the_planted_perfect_packing">> ELSE <<>>
+
 Covers == {"dec", "tt", "tq"}
 CoverUB(T) == SumSeq(T.vals) \div T.C
 \* r.opt: for the published worst-case families the harness states OPT (checked against the arithmetic bound OPT <= floor(total/C));
@@ -54,6 +61,7 @@ Verdict(T) ==
    ELSE IF "C10" \in Active /\ ~WitOK(T) THEN << [e |-> 0, c |-> "MACHINERY.bad_witness_cover"] >>
    ELSE LET per == [e \in 1..Len(T.res) |->
                       LET fs == (IF "C09" \in Active THEN C09Fails(T, T.res[e]) ELSE <<>>)
+                             \o (IF "C04" \in Active THEN C04Fails(T, T.res[e]) ELSE <<>>)
                              \o (IF "C10" \in Active THEN C10Fails(T, T.res[e]) ELSE <<>>)
                       IN [j \in 1..Len(fs) |-> [e |-> e, c |-> fs[j]]]]
         IN Flatten(per)
